@@ -38,5 +38,36 @@ def interWith (f : PyNum → PyNum → PyNum) (p q : MPoly PyNum) : List (Int ×
 /-- `next(iteritems(d))` under a dominating test `len(d) == 1` (the translator refuses it elsewhere) -/
 def next (d : MPoly PyNum) : Int × PyNum := d.headD (0, .int 0)
 
+/-- `v ** other` for a number `v` and an exponent of integral value `n` and kind `ek`: `0 ** negative` raises
+    ZeroDivisionError -/
+def pow (v : PyNum) (n : Int) (ek : ExpKind) : Except PyErr PyNum :=
+  if n < 0 ∧ v.isZero then .error .zeroDivision else .ok (powNum v n ek)
+
+/-- `[x] * count` for a count of integral value `n` and kind `ek`: a float count is a TypeError, a count `≤ 0`
+    gives the empty list -/
+def rep (x : ZPoly) (n : Int) (ek : ExpKind) : Except PyErr (List ZPoly) :=
+  if ek = .float then .error .type else .ok (List.replicate n.toNat x)
+
+/-- `reduce(mul, l + [self])`: for an empty `l` the result is the object `self` ITSELF (`none`), otherwise a new
+    instance (`some`), the left-nested product -/
+def reduceMul (mul : ZPoly → ZPoly → ZPoly) (l : List ZPoly) (self : ZPoly) : Option ZPoly :=
+  match l with
+  | [] => none
+  | a :: t => some ((t ++ [self]).foldl mul a)
+
+/-- `reduce(step, pairs)` without an initial value, over a sequence known to be non-empty (the translator demands a
+    dominating `if not self._data: return` and a length-preserving path from `self._data` to `pairs`); the
+    `TypeError` of the empty sequence is outside -/
+def reduce1 (f : Int × PyNum → Int × PyNum → Int × PyNum) (l : List (Int × PyNum)) : Int × PyNum :=
+  match l with
+  | [] => (0, .int 0)
+  | h :: t => t.foldl f h
+
+/-- the result of the translated `__pow__` in the model's result type -/
+def toPowRes : Except PyErr (Option ZPoly) → PowRes
+  | .error e => .err e
+  | .ok none => .self
+  | .ok (some r) => .new r
+
 end Py
 end ALV.C07
